@@ -11,7 +11,7 @@ TICK_EVERY = 5      # every 5th case of every unit is repeated with numpy intege
 RULE = ("all sequences of <=3 notes over the pitch alphabet {21,22,32,33,60,96,97,107,108} x 2 onsets (wrapped notes can "
         "collide), sequences with a key signature in each of the 15 keys, and bars built from them (4 key settings) x EVERY "
         "interval in [-100,100]; non-trivial = interval != 0")
-SCALE = ('16-120 notes x 11 intervals (long); ladder 129..1025 notes in three registers x 14 intervals up to +-127, built through either representation; every in-range octave of one pitch class held at once (7-8 notes) with one entering late x 39 intervals')
+SCALE = ('16-120 notes x 11 intervals (long); ladder 129..1025 notes in three registers x 14 intervals up to +-127, built through either representation; every in-range octave of one pitch class held at once (7-8 notes) with one entering late x 39 intervals; EVERY ordered pair of the 15 keys as two key signatures of one sequence and as (bar key, key message inside the bar) x every interval -12..12; intervals as numpy integers; numpy integer ticks every 5th case')
 ASSUMPTIONS = ["when octave wrapping happens only the image/in-range/return-value clauses apply (the library re-normalises "
                "and re-quantises lengths there)"]
 REQUIRED_FLAGS = ["after_history", "aliased_messages_inside_sequence", "wrapped_up", "wrapped_down", "not_wrapped_exact", "interval_multiple_of_12", "interval_beyond_range",
